@@ -117,6 +117,11 @@ func NewSimNet(s *Sim, rules NetRules) *SimNet {
 	return n
 }
 
+// MakeReliable switches all faults off from now on (latency and FIFO order stay).
+func (n *SimNet) MakeReliable() {
+	n.Rules = NetRules{BaseLatencyNs: int64(5 * time.Millisecond), JitterNs: int64(time.Millisecond), HoldMaxNs: int64(time.Second)}
+}
+
 func Addr(host byte, port int) *net.UDPAddr {
 	return &net.UDPAddr{IP: net.IPv4(10, 0, 0, host), Port: port}
 }
